@@ -79,3 +79,24 @@ import operator as _o
 for _n, _f, _m in (('__xor__', _o.xor, False), ('__and__', _o.and_, False), ('__or__', _o.or_, False), ('__add__', _o.add, True), ('__sub__', _o.sub, True)):
     contract('bits.%s_int' % _n, (lambda n=_n: getattr(_bits().Bits, n)), 'C08:crysp.bits.Bits.binop/int')(_binop_int(_n, _f, _m))
     LEAF.append('bits.%s_int' % _n)
+
+
+class SymBitStr(object):
+    """engine model of str(Bits) for a symbolic payload: the 0/1 string whose character i is bit i (contract proved by
+    C07 crysp.bits.Bits.str-hex-dots/exhaustive); only the queries the repository makes are modelled"""
+    _sym = True
+    def __init__(self, ival, size): self.ival = ival; self.size = size
+    def __len__(self): return self.size
+    def rfind(self, ch):
+        if ch != '1': raise EngineError('SymBitStr.rfind(%r) not modelled' % (ch,))
+        x = self.ival & ((1 << self.size) - 1)
+        return lift(x).bit_length() - 1 if isinstance(x, SymInt) else x.bit_length() - 1
+    def __str__(self): raise EngineError('symbolic bit string leaked to native str')
+    def replace(self, *a): raise EngineError('SymBitStr.replace not modelled')
+
+@contract('bits.str', lambda: _bits().Bits.__str__, 'C07:crysp.bits.Bits.str-hex-dots/exhaustive')
+def _str(I, args, kw):
+    (self,) = args
+    if not isinstance(self.ival, SymInt) or not isinstance(self.size, int): return NotImplemented
+    return (SymBitStr(self.ival, self.size),)
+LEAF.append('bits.str')
